@@ -1,2 +1,70 @@
-(* C02 — placeholder while the model is validated; theorems follow *)
+(* C02 — PCBO comparison constraints become exact non-negative penalties.
+   Statements only; proofs in Proofs/PCBOProofs.v (arithmetic in Proofs/PenaltyArith.v).
+
+   Reading guide.  For a call  add_constraint_R_zero(P, lam, log_trick, bounds)  on a model m giving m':
+     step_ok m m' lam G   : at every 0/1 assignment x,  m'(x) = m(x) + lam * G(x)     (the added terms F = lam * G)
+     pen_rel R fresh pv G : G >= 0 everywhere; if R(P(x)) then some x' that differs from x only on the fresh
+                            ancillas has G(x') = 0; if not R(P(x)) then G(x) >= 1 (so F >= lam) -- for every
+                            value of the ancillas, because x ranges over all assignments
+     fresh_lbl a a'       : the ancilla labels '__a k' with a <= k < a'
+   call_result packages: the recorded constraint (cframe), the ancilla counter, G >= 0 in every branch
+   (including the ones that warn), and pen_rel unless the library warned "cannot be satisfied". *)
 From QV.Model Require Import Base Matrix Arith Expr Extrema Sat PCBO.
+From QV.Proofs Require Import BaseProofs KeyProofs ArithProofs PenaltyArith PCBOProofs.
+Open Scope Q_scope.
+
+(* one constraint, any of the six relations, every branch of the implementation (shortcut forms,
+   unsatisfiable / always-satisfied branches, unary and binary slack), every lam <> 0 (lam > 0 in the property),
+   every integer-valued P, omitted / partial / any valid bounds *)
+Theorem C02_constraint : forall r m Pin lam lt b m' w t,
+  add_constraint r m Pin lam lt b = Ok (m', w, t) -> bkind (kd m) -> ~ lam == 0 ->
+  let pv := fun x => eval x Pin in
+  int_v pv -> bvalid pv b -> (forall n, indep (fresh_lbl (anc m) (anc m + n)) pv) ->
+  call_result r (rel_prop r) m m' lam Pin w.
+Proof. exact add_constraint_spec. Qed.
+Print Assumptions C02_constraint.
+
+(* == and <= keep a gap of lam even when the library warns that the constraint cannot be satisfied *)
+Theorem C02_le_strong : forall m Pin lam lt b m' w t,
+  add_le m Pin lam lt b = Ok (m', w, t) -> bkind (kd m) -> ~ lam == 0 ->
+  let pv := fun x => eval x Pin in
+  int_v pv -> bvalid pv b -> (forall n, indep (fresh_lbl (anc m) (anc m + n)) pv) ->
+  call_result_strong RLe (fun v => v <= 0) m m' lam Pin w.
+Proof. exact add_le_spec. Qed.
+Print Assumptions C02_le_strong.
+
+(* a polynomial that mentions no ancilla label does not depend on the fresh ancillas *)
+Theorem C02_no_anc_indep : forall P k0 k1, no_anc P -> indep (fresh_lbl k0 k1) (fun x => eval x P).
+Proof. exact no_anc_indep. Qed.
+Print Assumptions C02_no_anc_indep.
+
+(* is_solution_valid(x) is true exactly when every recorded constraint holds at x *)
+Theorem C02_valid_iff : forall m x,
+  is_solution_valid m x = true <-> forall r P, In (r, P) (cons m) -> rel_prop r (eval x P).
+Proof. exact is_solution_valid_iff. Qed.
+Print Assumptions C02_valid_iff.
+
+(* constraints added one after another: each is recorded, gets its own consecutive block of ancillas
+   (the counter never decreases, so the blocks are pairwise disjoint), and contributes its exact penalty *)
+Theorem C02_sequence : forall cs m m', run_calls m cs = Ok m' -> bkind (kd m) -> Forall call_ok cs -> seq_result m cs m'.
+Proof. exact run_calls_spec. Qed.
+Print Assumptions C02_sequence.
+Theorem C02_ancilla_blocks : forall m cs m', seq_result m cs m' -> (anc m <= anc m')%nat.
+Proof. exact seq_result_anc. Qed.
+Print Assumptions C02_ancilla_blocks.
+
+(* the arithmetic facts the branches rest on *)
+Theorem C02_and_gadget : forall a b c, is_bool a -> is_bool b -> is_bool c ->
+  let G := 3 * a + b * c - 2 * a * (b + c) in 0 <= G /\ (a == b * c -> G == 0) /\ (~ a == b * c -> 1 <= G).
+Proof. exact and_gadget_facts. Qed.
+Print Assumptions C02_and_gadget.
+Theorem C02_num_bits : forall val lt n, num_bits val lt = Ok n -> forall t : Z, (0 <= t)%Z -> inject_Z t <= val ->
+  if lt then (t < 2 ^ Z.of_nat n)%Z else (t <= Z.of_nat n)%Z.
+Proof. exact num_bits_enough. Qed.
+Print Assumptions C02_num_bits.
+
+(* non-vacuity: x + 2y + z - 2 <= 0 with unary slack on a PCBO; two ancillas are created and the constraint is recorded *)
+Example C02_example :
+  exists m' w t, add_constraint RLe (empty_model KPcbo) [([0]%nat, 1); ([1]%nat, 2); ([2]%nat, 1); ([], -(2))] 3 false (None, None) = Ok (m', w, t)
+                 /\ anc m' = 2%nat /\ w = WNone /\ length (cons m') = 1%nat.
+Proof. eexists. eexists. eexists. vm_compute. repeat split. Qed.
